@@ -1,1 +1,263 @@
-/- property theorems of C13 (only theorems + non-vacuity examples live here) -/
+/- property theorems of C13 (only theorems + non-vacuity examples live here)
+
+C13 — iox.Buffer / iox.OctetsStream are seekable FIFO byte streams for any op sequence.
+
+Models: `Got.Model.Bytes.Buffer` (buffer.go), `Got.Model.Bytes.Stream` (octets_stream.go).
+Spec:   `Got.Spec.Bytes` — ghost state `(W, r, c)`: `W` all bytes written since the last Reset, `r` retained start,
+        `c` cursor, `r ≤ c ≤ |W|`; `BufferSpec` / `StreamSpec` = one step of the abstract seekable FIFO (reads return
+        `W[c..]`, writes append to `W`, compaction only advances `r` up to `c`, Seek fails without change or moves `c`
+        inside `[r, |W|]`, no outcome is a panic); `BufferRel` / `StreamRel` = `buf = W.drop r ∧ off = c - r`.
+Domain: `BufferOpValid` = non-negative Next/Grow sizes, int64 seek offsets.  The ErrTooLarge branch of `grow` is excluded
+        by the stated bound `3 * (bytes written + bytes requested by Grow) ≤ maxInt` (2^63-1).
+-/
+import Got.Lemmas.BytesCorollaries
+open Got.Model.Bytes Got.Spec.Bytes Got.Lemmas.Bytes
+
+/-- REFINEMENT (Buffer).  For every op sequence of the domain, the model's outputs are exactly the outputs of some run of
+    the abstract seekable FIFO, and the final concrete state represents the final ghost state
+    (`buf = W.drop r`, `off = c - r`, `r ≤ c ≤ |W|`).  Every prefix of an op sequence is an op sequence, so this
+    covers every intermediate state as well. -/
+theorem C13_buffer_refines (ops : List Buffer.Op) (hv : ∀ op ∈ ops, BufferOpValid op)
+    (hsize : ((3 * bufferSizes ops : Nat) : Int) ≤ maxInt) :
+    ∃ g', BufferSpecRun Ghost.init ops (Buffer.init.run ops).2 g' ∧ BufferRel (Buffer.init.run ops).1 g' := by
+  obtain ⟨g', hrun, hsim, _⟩ := buffer_run_sim ops Buffer.init Ghost.init 0 sim_init hv (by simpa using hsize)
+  exact ⟨g', hrun, hsim⟩
+
+example : ∃ g', BufferSpecRun Ghost.init [.write [1, 2, 3], .read 2, .write [4], .seek (-1) 1, .tidy, .next 5]
+      (Buffer.init.run [.write [1, 2, 3], .read 2, .write [4], .seek (-1) 1, .tidy, .next 5]).2 g' ∧
+    BufferRel (Buffer.init.run [.write [1, 2, 3], .read 2, .write [4], .seek (-1) 1, .tidy, .next 5]).1 g' :=
+  C13_buffer_refines _ (by decide) (by decide)
+
+/-- REFINEMENT (OctetsStream); lengths stay below 2^63 as every Go slice does. -/
+theorem C13_stream_refines (ops : List Stream.Op) (hv : ∀ op ∈ ops, StreamOpValid op)
+    (hsize : (streamSizes ops : Int) < 2 ^ 63) :
+    ∃ g', StreamSpecRun Ghost.init ops (Stream.init.run ops).2 g' ∧ StreamRel (Stream.init.run ops).1 g' := by
+  obtain ⟨g', hrun, hsim, _⟩ := stream_run_sim ops Stream.init Ghost.init 0 ssim_init hv (by simpa using hsize)
+  exact ⟨g', hrun, hsim⟩
+
+example : ∃ g', StreamSpecRun Ghost.init [.write [1, 2, 3, 4, 5], .seek 10 0, .read 4, .tidy, .writeInt32 (-2)]
+      (Stream.init.run [.write [1, 2, 3, 4, 5], .seek 10 0, .read 4, .tidy, .writeInt32 (-2)]).2 g' ∧
+    StreamRel (Stream.init.run [.write [1, 2, 3, 4, 5], .seek 10 0, .read 4, .tidy, .writeInt32 (-2)]).1 g' :=
+  C13_stream_refines _ (by decide) (by decide)
+
+/-- UNREAD PORTION (Buffer).  In a state representing `(W, r, c)`: `Bytes()` and `String()` do not panic and return
+    `W[c..]`, `Len()` is its length. -/
+theorem C13_buffer_unread (b : Buffer) (g : Ghost) (h : BufferRel b g) :
+    b.bytes? = some (g.W.drop g.c) ∧ b.string? = some (g.W.drop g.c) ∧ b.len = (g.W.drop g.c).length :=
+  ⟨(buffer_observers h).1, (buffer_observers h).2.1, (buffer_observers h).2.2.1⟩
+
+/-- UNREAD PORTION (OctetsStream).  `Bytes()` returns `W[c..]` without panic, `Len()` is the retained length `|W| - r`,
+    `Position()` is `c - r`, so `Len() - Position()` is the unread length. -/
+theorem C13_stream_unread (s : Stream) (g : Ghost) (h : StreamRel s g) :
+    s.bytes? = some (g.W.drop g.c) ∧ s.len = g.W.length - g.r ∧ s.position = g.c - g.r ∧
+      s.len - s.position = (g.W.drop g.c).length :=
+  stream_observers h
+
+/-- After ANY op sequence of the domain `Bytes()` is the unread part of the write history of SOME abstract run that
+    produced the same outputs (combination of the two theorems above, stated without an intermediate relation). -/
+theorem C13_buffer_bytes_after_run (ops : List Buffer.Op) (hv : ∀ op ∈ ops, BufferOpValid op)
+    (hsize : ((3 * bufferSizes ops : Nat) : Int) ≤ maxInt) :
+    ∃ g', BufferSpecRun Ghost.init ops (Buffer.init.run ops).2 g' ∧
+      (Buffer.init.run ops).1.bytes? = some (g'.W.drop g'.c) ∧ g'.r ≤ g'.c ∧ g'.c ≤ g'.W.length := by
+  obtain ⟨g', hrun, hrel⟩ := C13_buffer_refines ops hv hsize
+  exact ⟨g', hrun, (C13_buffer_unread _ _ hrel).1, hrel.1.1, hrel.1.2⟩
+
+theorem C13_stream_bytes_after_run (ops : List Stream.Op) (hv : ∀ op ∈ ops, StreamOpValid op)
+    (hsize : (streamSizes ops : Int) < 2 ^ 63) :
+    ∃ g', StreamSpecRun Ghost.init ops (Stream.init.run ops).2 g' ∧
+      (Stream.init.run ops).1.bytes? = some (g'.W.drop g'.c) ∧ g'.r ≤ g'.c ∧ g'.c ≤ g'.W.length := by
+  obtain ⟨g', hrun, hrel⟩ := C13_stream_refines ops hv hsize
+  exact ⟨g', hrun, (C13_stream_unread _ _ hrel).1, hrel.1.1, hrel.1.2⟩
+
+/-- COMPACTION IS INVISIBLE (ghost-free form).  In every state satisfying the representation invariant
+    (`C13_buffer_invariant`: every reachable state), `Write(p)` changes `Bytes()` to `Bytes() ++ p`, and `Grow(n)`
+    (`n ≥ 0`) and `Tidy()` do not change `Bytes()` at all — whichever of reset-if-empty / reslice / small allocation /
+    slide / reallocation the grow policy picks. -/
+theorem C13_buffer_compaction_invisible (b : Buffer) (hinv : BufferInv b) (p : List Byte) (n : Nat)
+    (hp : ((3 * (b.buf.length + p.length) : Nat) : Int) ≤ maxInt)
+    (hn : ((3 * (b.buf.length + n) : Nat) : Int) ≤ maxInt) :
+    (b.write p).1.bytes = b.bytes ++ p ∧ (b.write p).2 = .wrote p.length ∧
+    (b.growOp n).1.bytes = b.bytes ∧ (b.growOp n).2 = .unit ∧ n ≤ (b.growOp n).1.cap - (b.growOp n).1.buf.length ∧
+    b.tidy.bytes = b.bytes := by
+  obtain ⟨b1, k1, hw, hk1, hoff1, hbuf1, _, _⟩ := write_char b p hinv (by rw [maxInt_eq] at *; omega)
+  obtain ⟨b2, k2, hg, hk2, hoff2, hbuf2, _, hroom⟩ :=
+    growOp_char b n (by omega) hinv (by rw [maxInt_eq] at *; simp only [Int.toNat_natCast]; omega)
+  simp only [Int.toNat_natCast] at hroom
+  refine ⟨?_, by rw [hw], ?_, by rw [hg], by rw [hg]; exact hroom, ?_⟩
+  · rw [hw]; simp only [Buffer.bytes, hbuf1, hoff1]
+    exact drop_compact b.buf p b.off k1 hk1 hinv.1
+  · rw [hg]; simp only [Buffer.bytes, hbuf2, hoff2]
+    simpa using drop_compact b.buf [] b.off k2 hk2 hinv.1
+  · -- Tidy: through the refinement lemma, with the trivial ghost state of `b`
+    have hsim : BufferSim b { W := b.buf, r := 0, c := b.off } b.buf.length :=
+      ⟨⟨⟨Nat.zero_le _, hinv.1⟩, rfl, rfl⟩, hinv, Nat.le_refl _⟩
+    obtain ⟨g', ⟨_, ⟨hW, hc, _, _⟩, _⟩, hsim'⟩ := sim_tidy b _ _ hsim
+    have h1 := (buffer_observers hsim'.1).2.2.2
+    rw [h1]; simp [Ghost.unread, hW, hc, Buffer.bytes]
+
+example : BufferInv (Buffer.init.run [.write [1, 2, 3], .read 2]).1 := by decide
+
+/-- SEEK.  In a state representing `(W, r, c)` (length below 2^63), `Seek(offset, whence)` with an int64 offset either
+    fails leaving the state unchanged, or returns the position `c' - r` of a cursor `c'` with `r ≤ c' ≤ |W|`, leaves the
+    contents untouched, and `Bytes()` afterwards is `W[c'..]` — the bytes originally written there.  It succeeds exactly
+    when whence ∈ {0,1,2} and the designated target lies in `[0, |W| - r]` (`Ghost.seekOk`). -/
+theorem C13_buffer_seek (b : Buffer) (g : Ghost) (o w : Int) (ho : -(2 ^ 63 : Int) ≤ o ∧ o < 2 ^ 63)
+    (hinv : BufferInv b) (hrel : BufferRel b g) (hlen : ((3 * b.buf.length : Nat) : Int) ≤ maxInt) :
+    (¬ g.seekOk o w ∧ b.seek o w = (b, .seek 0 .invalidSeek)) ∨
+    (g.seekOk o w ∧ ∃ c', g.r ≤ c' ∧ c' ≤ g.W.length ∧ (c' : Int) = g.r + g.seekTarget o w ∧
+      (b.seek o w).2 = .seek (c' - g.r) .nil ∧ (b.seek o w).1.buf = b.buf ∧ (b.seek o w).1.cap = b.cap ∧
+      (b.seek o w).1.bytes? = some (g.W.drop c')) := by
+  obtain ⟨g', hspec, hsim'⟩ := sim_seek b g b.buf.length o w ho ⟨hrel, hinv, Nat.le_refl _⟩ hlen
+  simp only [BufferSpec] at hspec
+  have hretained : g.retained = g.W.length - g.r := rfl
+  by_cases hok : g.seekOk o w
+  · right
+    simp only [hok, if_true] at hspec
+    obtain ⟨hout, hg'⟩ := hspec
+    obtain ⟨_, _, h3, h4⟩ := hok
+    refine ⟨⟨by assumption, by assumption, h3, h4⟩, g.r + (g.seekTarget o w).toNat, by omega, ?_, ?_, ?_, ?_, ?_, ?_⟩
+    · have := hrel.1.1; have := hrel.1.2; omega
+    · omega
+    · rw [hout]; congr 1; omega
+    · exact (buffer_seek_frame b o w).1
+    · exact (buffer_seek_frame b o w).2.1
+    · have := (buffer_observers hsim'.1).1
+      rw [this, hg']; rfl
+  · left
+    simp only [hok, if_false] at hspec
+    refine ⟨hok, ?_⟩
+    obtain ⟨hout, hg'⟩ := hspec
+    have hstate : (b.seek o w).1 = b := by
+      have hoff := hsim'.1.2.2
+      have hoff0 := hrel.2.2
+      rw [hg'] at hoff
+      obtain ⟨hbuf, hcap, hnil⟩ := buffer_seek_frame b o w
+      cases hb : (b.seek o w).1
+      cases b
+      simp_all
+    exact Prod.ext hstate hout
+
+/-- SEEK (OctetsStream), same statement; `Len()` (retained length) and contents unchanged. -/
+theorem C13_stream_seek (s : Stream) (g : Ghost) (o w : Int) (ho : -(2 ^ 63 : Int) ≤ o ∧ o < 2 ^ 63)
+    (hrel : StreamRel s g) (hlen : (s.buf.length : Int) < 2 ^ 63) :
+    (¬ g.seekOk o w ∧ s.seek o w = (s, .seek 0 .invalidArgument)) ∨
+    (g.seekOk o w ∧ ∃ c', g.r ≤ c' ∧ c' ≤ g.W.length ∧ (c' : Int) = g.r + g.seekTarget o w ∧
+      (s.seek o w).2 = .seek (c' - g.r) .nil ∧ (s.seek o w).1.buf = s.buf ∧
+      (s.seek o w).1.bytes? = some (g.W.drop c')) := by
+  obtain ⟨g', hspec, hsim'⟩ := ssim_seek s g s.buf.length o w ho ⟨hrel, Nat.le_refl _⟩ hlen
+  simp only [StreamSpec] at hspec
+  have hretained : g.retained = g.W.length - g.r := rfl
+  have hbuf : (s.seek o w).1.buf = s.buf := stream_seek_frame s o w
+  by_cases hok : g.seekOk o w
+  · right
+    simp only [hok, if_true] at hspec
+    obtain ⟨hout, hg'⟩ := hspec
+    obtain ⟨_, _, h3, h4⟩ := hok
+    refine ⟨⟨by assumption, by assumption, h3, h4⟩, g.r + (g.seekTarget o w).toNat, by omega, ?_, ?_, ?_, hbuf, ?_⟩
+    · have := hrel.1.1; have := hrel.1.2; omega
+    · omega
+    · rw [hout]; congr 1; omega
+    · have := (stream_observers hsim'.1).1
+      rw [this, hg']; rfl
+  · left
+    simp only [hok, if_false] at hspec
+    refine ⟨hok, ?_⟩
+    obtain ⟨hout, hg'⟩ := hspec
+    have hstate : (s.seek o w).1 = s := by
+      have hoff := hsim'.1.2.2
+      have hoff0 := hrel.2.2
+      rw [hg'] at hoff
+      cases hb : (s.seek o w).1
+      cases s
+      simp_all
+    exact Prod.ext hstate hout
+
+/-- NO PANIC (Buffer).  No op sequence of the domain (non-negative Next/Grow sizes, int64 offsets, total requested bytes
+    below (2^63-1)/3) produces a panic outcome — in particular the ErrTooLarge branch and the slice expressions of
+    Next/Tidy/grow are never out of range — and afterwards the cursor is inside the data: `off ≤ len`, so `Bytes()` and
+    `String()` do not panic either. -/
+theorem C13_buffer_no_panic (ops : List Buffer.Op) (hv : ∀ op ∈ ops, BufferOpValid op)
+    (hsize : ((3 * bufferSizes ops : Nat) : Int) ≤ maxInt) :
+    (∀ out ∈ (Buffer.init.run ops).2, ∀ why, out ≠ .panic why) ∧
+    (Buffer.init.run ops).1.off ≤ (Buffer.init.run ops).1.buf.length ∧
+    (Buffer.init.run ops).1.bytes? ≠ none ∧ (Buffer.init.run ops).1.string? ≠ none := by
+  obtain ⟨g', hrun, hrel⟩ := C13_buffer_refines ops hv hsize
+  have hobs := buffer_observers hrel
+  refine ⟨bufferSpecRun_no_panic ops _ _ _ hrun, rel_off_le hrel, ?_, ?_⟩
+  · rw [hobs.1]; simp
+  · rw [hobs.2.1]; simp
+
+/-- NO PANIC (OctetsStream): no panic outcome, `position ≤ len(buffer)`, `Bytes()` does not panic. -/
+theorem C13_stream_no_panic (ops : List Stream.Op) (hv : ∀ op ∈ ops, StreamOpValid op)
+    (hsize : (streamSizes ops : Int) < 2 ^ 63) :
+    (∀ out ∈ (Stream.init.run ops).2, ∀ why, out ≠ .panic why) ∧
+    (Stream.init.run ops).1.pos ≤ (Stream.init.run ops).1.buf.length ∧
+    (Stream.init.run ops).1.bytes? ≠ none := by
+  obtain ⟨g', hrun, hrel⟩ := C13_stream_refines ops hv hsize
+  have hobs := stream_observers hrel
+  refine ⟨streamSpecRun_no_panic ops _ _ _ hrun, ?_, ?_⟩
+  · have := srel_len hrel
+    obtain ⟨⟨h1, h2⟩, _, ho⟩ := hrel
+    omega
+  · rw [hobs.1]; simp
+
+/-- the domain restriction is needed: negative sizes do panic (by design of bytes.Buffer) -/
+example : (Buffer.init.run [.grow (-1)]).2 = [.panic "bytes.Buffer.Grow: negative count"] ∧
+    (Buffer.init.run [.write [1], .next (-1)]).2 = [.wrote 1, .panic "slice bounds out of range"] := by decide
+
+/-- CAPACITY INVARIANT (model fidelity).  In every reachable state `off ≤ len(buf) ≤ cap(buf)` and
+    `buf == nil ⇔ cap(buf) = 0`; Go guarantees `len ≤ cap` for every slice, the model has to maintain it itself.
+    `Cap()` is part of every compared observation, which ties the grow policy of the model to the code. -/
+theorem C13_buffer_invariant (ops : List Buffer.Op) (hv : ∀ op ∈ ops, BufferOpValid op)
+    (hsize : ((3 * bufferSizes ops : Nat) : Int) ≤ maxInt) :
+    let b := (Buffer.init.run ops).1
+    b.off ≤ b.buf.length ∧ b.buf.length ≤ b.cap ∧ (b.isNil = true ↔ b.cap = 0) ∧ b.buf.length ≤ bufferSizes ops := by
+  obtain ⟨g', _, _, hinv, hS⟩ := buffer_run_sim ops Buffer.init Ghost.init 0 sim_init hv (by simpa using hsize)
+  exact ⟨hinv.1, hinv.2.1, hinv.2.2, by simpa using hS⟩
+
+/-- FIFO LAW.  For every op sequence of the domain without Seek and Reset: the bytes returned by all Read/Next calls, in
+    order, followed by what `Bytes()` returns at the end, are exactly the bytes passed to all Write calls, in order —
+    no byte is lost, duplicated or reordered by Tidy or by any branch of the grow policy. -/
+theorem C13_buffer_fifo (ops : List Buffer.Op) (hv : ∀ op ∈ ops, BufferOpValid op)
+    (hfree : ∀ op ∈ ops, BufSeekFree op) (hsize : ((3 * bufferSizes ops : Nat) : Int) ≤ maxInt) :
+    bufReads (Buffer.init.run ops).2 ++ (Buffer.init.run ops).1.bytes = bufWrites ops := by
+  obtain ⟨g', hrun, hrel⟩ := C13_buffer_refines ops hv hsize
+  obtain ⟨hW, hT, _⟩ := buffer_fifo_gen ops Ghost.init g' _ ⟨Nat.le_refl _, Nat.le_refl _⟩ hfree hrun
+  have hb := (buffer_observers hrel).2.2.2
+  simp only [Ghost.init, List.nil_append, List.take_nil] at hW hT
+  rw [hb, ← hT, ← hW]
+  exact List.take_append_drop _ _
+
+example : bufReads (Buffer.init.run [.write [1, 2, 3], .read 2, .grow 2, .write [4], .tidy, .next 1]).2 ++
+    (Buffer.init.run [.write [1, 2, 3], .read 2, .grow 2, .write [4], .tidy, .next 1]).1.bytes = [1, 2, 3, 4] := by
+  decide
+
+/-- FIFO LAW (OctetsStream): bytes returned by Read/ReadByte, in order, followed by the final `Bytes()`, are exactly the
+    bytes appended by all Write* calls, in order (seek- and reset-free sequences). -/
+theorem C13_stream_fifo (ops : List Stream.Op) (hfree : ∀ op ∈ ops, StrSeekFree op)
+    (hsize : (streamSizes ops : Int) < 2 ^ 63) :
+    strReads (Stream.init.run ops).2 ++ (Stream.init.run ops).1.bytes = strWrites ops := by
+  have hv : ∀ op ∈ ops, StreamOpValid op := by
+    intro op hop
+    have := hfree op hop
+    cases op <;> simp_all [StreamOpValid, StrSeekFree]
+  obtain ⟨g', hrun, hrel⟩ := C13_stream_refines ops hv hsize
+  obtain ⟨hW, hT, _⟩ := stream_fifo_gen ops Ghost.init g' _ ⟨Nat.le_refl _, Nat.le_refl _⟩ hfree hrun
+  have hb : (Stream.init.run ops).1.bytes = g'.unread := srel_unread hrel
+  simp only [Ghost.init, List.nil_append, List.take_nil] at hW hT
+  rw [hb, ← hT, ← hW]
+  exact List.take_append_drop _ _
+
+example : strReads (Stream.init.run [.write [1, 2, 3], .readByte, .writeInt16 (-2), .tidy, .read 2, .readByte]).2 ++
+    (Stream.init.run [.write [1, 2, 3], .readByte, .writeInt16 (-2), .tidy, .read 2, .readByte]).1.bytes
+      = [1, 2, 3, 254, 255] := by
+  decide
+
+/-- the defect fixed by `fix: iox OctetsStream.Seek rejects positions beyond the end of the data`:
+    with the old Seek, `Seek(10, SeekStart)` on 5 bytes succeeds and `Bytes()` then panics; the current Seek fails and
+    leaves the stream unchanged. -/
+theorem C13_stream_old_counterexample :
+    let s := (Stream.init.write [1, 2, 3, 4, 5])
+    (s.seekOld 10 0).2 = .seek 10 .nil ∧ (s.seekOld 10 0).1.bytes? = none ∧
+    (s.seek 10 0).2 = .seek 0 .invalidArgument ∧ (s.seek 10 0).1 = s := by
+  decide
